@@ -43,6 +43,21 @@ class Runner {
       for (size_t d = 0; d < opt.ndocs; d++) {
         w->ledgers.emplace_back(new lib::Ledger);
         w->docs.emplace_back(new JsonDocument(w->ledgers.back().get()));
+        World* wp = w.get();
+        w->ledgers.back()->on_allocate = [wp](size_t) {
+          // "released slots are reused before a new pool is requested": when the pool count of the
+          // watched document has grown, this allocation is the new pool's block
+          if (!wp->watch) return;
+          size_t now = lib::Inspector::pool_count(*wp->watch);
+          if (now > wp->watch_pools) {
+            wp->watch_pools = now;
+            wp->pool_requests++;
+            if (!lib::Inspector::free_list_empty(*wp->watch) && wp->watch_error.empty())
+              wp->watch_error = "a new pool was requested while released slots were still on the free list";
+            if (!lib::Inspector::previous_pool_full(*wp->watch) && wp->watch_error.empty())
+              wp->watch_error = "a new pool was requested while the last pool still had unused slots";
+          }
+        };
       }
       worlds.push_back(std::move(w));
     }
@@ -164,6 +179,8 @@ class Runner {
   template <typename F>
   void on_target(World& w, const Target& t, F&& f) {
     JsonDocument& d = *w.docs[(size_t)t.doc];
+    w.watch = &d;
+    w.watch_pools = lib::Inspector::pool_count(d);
     switch (t.form) {
       case 0:
       case 1: {
@@ -315,6 +332,8 @@ class Runner {
       }
       for (auto& l : w.ledgers)
         if (!l->error.empty()) fail("allocator-discipline", l->error + wn);
+      if (!w.watch_error.empty()) fail("pool-requested-too-early", w.watch_error + wn);
+      w.watch = nullptr;
       // every live handle still designates its node
       for (size_t i = 0; i < m.handles.size(); i++) {
         MHandle& h = m.handles[i];
@@ -356,6 +375,7 @@ class Runner {
         verify(false);
         return;
       }
+    for (auto& w : worlds) w->watch = nullptr;
     static const unsigned w_full[] = {14, 6, 10, 6, 12, 10, 8, 6, 5, 4, 9, 5, 5, 6, 5, 5, 4};
     static const unsigned w_red[] = {10, 5, 8, 4, 8, 8, 8, 6, 0, 4, 6, 3, 0, 3, 0, 3, 0};
     unsigned op = (unsigned)(opt.reduced_alphabet ? s.pick(w_red) : s.pick(w_full));
@@ -654,6 +674,7 @@ class Runner {
           }
       }
     }
+    account_shared_strings(t.doc);
     for (auto& w : worlds) {
       auto doit = [&](auto&& x) {
         if (by_index) x.remove(index);
@@ -668,12 +689,28 @@ class Runner {
     }
   }
   void note_string_removal(const Val& removed) {
-    // a removed string that is also held elsewhere: sharing must stay invisible
-    bool has_str = false;
+    // a removed string whose text is also held elsewhere: sharing must stay invisible
+    std::set<std::string> gone;
     removed.walk([&](const Val& x) {
-      if (x.k == Val::Str) has_str = true;
+      if (x.k == Val::Str) gone.insert(x.s);
+      if (x.k == Val::Obj)
+        for (auto& kv : x.o) gone.insert(kv.first);
     });
-    if (has_str) st.shared_string_removed++;
+    if (gone.empty()) return;
+    pending_removed_strings = gone;
+  }
+  std::set<std::string> pending_removed_strings;
+  void account_shared_strings(int doc) {
+    if (pending_removed_strings.empty()) return;
+    bool shared = false;
+    m.docs[(size_t)doc].root.walk([&](const Val& x) {
+      if (x.k == Val::Str && pending_removed_strings.count(x.s)) shared = true;
+      if (x.k == Val::Obj)
+        for (auto& kv : x.o)
+          if (pending_removed_strings.count(kv.first)) shared = true;
+    });
+    if (shared) st.shared_string_removed++;
+    pending_removed_strings.clear();
   }
 
   // target.clear()
